@@ -109,6 +109,86 @@ impl Family for FResolve {
     }
 }
 
+/// Two call sites in ONE function, in order: every ordered pair of the called names of F-resolve
+/// under every import list, caller in root / a / a.b, on the full tree (every function present) and
+/// on two trees that lack a.b.g and a.f, one of them also the root-level f (so that the imports through `super.` are what finds them). The resolution of the second name must not
+/// depend on how the first one was found (a scratch buffer, a cache or a cursor left behind by a
+/// lookup that walked up through `super.` or through an import).
+pub struct FResolveTwo;
+
+impl FResolveTwo {
+    const TREES: [u64; 3] = [0b1111111, 0b1111001, 0b0111001];
+}
+
+impl Family for FResolveTwo {
+    fn name(&self) -> &'static str {
+        "F-resolve-two"
+    }
+    fn len(&self) -> u64 {
+        Self::TREES.len() as u64 * 3 * (CALLED.len() * CALLED.len()) as u64 * IMPORT_SETS.len() as u64
+    }
+    fn case(&self, idx: u64) -> Module {
+        let mut i = idx;
+        let bits = Self::TREES[(i % Self::TREES.len() as u64) as usize];
+        i /= Self::TREES.len() as u64;
+        let site = i % 3;
+        i /= 3;
+        let first = CALLED[(i % CALLED.len() as u64) as usize];
+        i /= CALLED.len() as u64;
+        let second = CALLED[(i % CALLED.len() as u64) as usize];
+        i /= CALLED.len() as u64;
+        let imports: Vec<String> = IMPORT_SETS[i as usize].iter().map(|x| x.to_string()).collect();
+        let has = |k: u64| bits & (1 << k) != 0;
+        let caller = func(&[], vec![sv("canary", int(5)), sg("got", call(first, vec![])), sg("got2", call(second, vec![])), native("log2", vec![s("canary"), rv("canary")])]);
+        let mut ab = Module::default();
+        if has(0) {
+            ab.functions.push(("f".into(), tagged("a.b.f")));
+        }
+        if has(1) {
+            ab.functions.push(("g".into(), tagged("a.b.g")));
+        }
+        let mut a = Module::default();
+        if has(2) {
+            a.functions.push(("f".into(), tagged("a.f")));
+        }
+        if has(3) {
+            a.functions.push(("g".into(), tagged("a.g")));
+        }
+        let mut bm = Module::default();
+        if has(4) {
+            bm.functions.push(("f".into(), tagged("b.f")));
+        }
+        if has(5) {
+            bm.functions.push(("g".into(), tagged("b.g")));
+        }
+        let mut root = Module::default();
+        let entry = match site {
+            0 => {
+                root.imports = imports;
+                caller
+            }
+            1 => {
+                a.imports = imports;
+                a.functions.push(("caller".into(), caller));
+                func(&[], vec![call("a.caller", vec![])])
+            }
+            _ => {
+                ab.imports = imports;
+                ab.functions.push(("caller".into(), caller));
+                func(&[], vec![call("a.b.caller", vec![])])
+            }
+        };
+        root.functions.push(("main".into(), entry));
+        if has(6) {
+            root.functions.push(("f".into(), tagged("f")));
+        }
+        a.submodules.push(("b".into(), ab));
+        root.submodules.push(("a".into(), a));
+        root.submodules.push(("b".into(), bm));
+        root
+    }
+}
+
 /// An import list belongs to the module that declares it and to no other: the tree of F-resolve with
 /// the import list on one module and the (import-less) caller in another one - a descendant, the
 /// parent, a sibling.
